@@ -363,6 +363,12 @@ def check(ax, case, rec):
         ij = {1: [(0, 0)], 2: [(0, 0), (1, 1), (0, 1)], 3: [(0, 0), (1, 1), (2, 2), (0, 1), (1, 2), (0, 2)]}[d]
         ref = per_item(lambda a: np.array([a[i, j] * (2 if (strain and i != j) else 1) for i, j in ij]), [A], [2], 1)
         cmp("tovoigt", fm.tovoigt(A, strain=strain), ref, tol=0.0)
+        if not strain:
+            # a tensor that is not symmetric (a deformation gradient, a first Piola-Kirchhoff stress): the components named in the
+            # documented order 11, 22, 33, 12, 23, 13 are taken as they are named
+            An = A + 0.3 * np.triu(np.ones((d, d)), 1).reshape((d, d) + (1,) * (A.ndim - 2))
+            refn = per_item(lambda a: np.array([a[i, j] for i, j in ij]), [An], [2], 1)
+            cmp("tovoigt(non-symmetric)", fm.tovoigt(An, strain=False), refn, tol=0.0)
     elif ax == "equivalent_von_mises":
         if d == 1:
             return
